@@ -307,7 +307,7 @@ func genCase(id int, class string, delay time.Duration, failWrite int, failErr s
 	return o
 }
 
-func pktAll(out string, only int) {
+func pktAll(out string, only int, seed int64) {
 	w := hlib.NewOut(out)
 	defer w.Close()
 	type job func() pktRow
@@ -325,6 +325,9 @@ func pktAll(out string, only int) {
 	}
 	rows := make([]pktRow, len(jobs))
 	var wg sync.WaitGroup
+	var bursts []burstRow
+	wg.Add(1)
+	go func() { defer wg.Done(); bursts = burstAll(seed, only) }()
 	for i, j := range jobs {
 		if only >= 0 && i != only {
 			continue
@@ -338,6 +341,9 @@ func pktAll(out string, only int) {
 			continue
 		}
 		w.Put(r)
+	}
+	for _, b := range bursts {
+		w.Put(b)
 	}
 }
 
